@@ -202,6 +202,11 @@ func (t *Transport) getConn(addr string) (pc *persistConn, err error) {
 	}
 	t.connsMu.Lock()
 	defer t.connsMu.Unlock()
+	if atomic.LoadUint32(&t.closed) > 0 {
+		// Close has run (or is waiting for connsMu): nothing would ever close a
+		// connection dialled now, nor stop a housekeeping goroutine started now.
+		return nil, ErrShutdown
+	}
 	if !t.running {
 		t.once.Do(func() {
 			t.idleConns = make(map[string]*connQueue)
